@@ -19,21 +19,6 @@ def strLe : Str → Str → Bool
     else if b.toNat < a.toNat then false
     else strLe as bs
 
-/-- `sep.join(parts)` -/
-def joinSep (sep : Str) : List Str → Str
-  | [] => []
-  | [x] => x
-  | x :: y :: r => x ++ sep ++ joinSep sep (y :: r)
-
-/-- `s.split(c)` for a one-character separator: always at least one field -/
-def splitOnC (c : Char) : Str → List Str
-  | [] => [[]]
-  | x :: xs =>
-    if x == c then [] :: splitOnC c xs
-    else match splitOnC c xs with
-      | [] => [[x]]      -- unreachable: `splitOnC` never returns []
-      | f :: fs => (x :: f) :: fs
-
 inductive Encoding where | kern | ekern | bkern | bekern | akern | aekern
   deriving DecidableEq, Repr, Inhabited
 
